@@ -6,6 +6,7 @@ from pvlib import log
 
 def run():
     pvlib.build_harness()
+    pvlib.build_ls()
     bad = 0
     for f in sorted(glob.glob(os.path.join(pvlib.SPEC, "*.tla"))):
         m = os.path.basename(f)[:-4]
